@@ -170,7 +170,10 @@ def run_session(emit, C, prop, hist, b, seed, mode):
                 elif a['a'] == 'orphan':
                     r = recs[a['h']]
                     r.members                       # the concept objects the caller keeps ...
-                    r.ctx = rec_ctx.OrphanShim(r._members)      # ... and nothing else
+                    if getattr(r._members[0], 'lattice', None) is r.ctx.lattice:
+                        r.ctx = rec_ctx.OrphanShim(r._members)      # ... and nothing else
+                    else:                           # no public Concept.lattice in this version: keep the context
+                        r.ctx = rec_ctx.KeepShim(r.ctx)
                     gc.collect()
                 elif a['a'] == 'drop':
                     if mode == 'flags' and not isinstance(recs[a['h']].ctx, rec_ctx.OrphanShim):
